@@ -151,12 +151,12 @@ func (p *Process) dispatch(cl *store.Cluster, ev store.Event) {
 
 type fakeInformer struct {
 	toolscache.SharedIndexInformer // nil; only the methods below are ever called
-	p        *Process
-	cl       *store.Cluster
-	gk       schema.GroupKind
-	sel      labels.Selector
-	handlers []toolscache.ResourceEventHandler
-	stopped  bool
+	p                              *Process
+	cl                             *store.Cluster
+	gk                             schema.GroupKind
+	sel                            labels.Selector
+	handlers                       []toolscache.ResourceEventHandler
+	stopped                        bool
 }
 
 type fakeReg struct{}
@@ -202,8 +202,8 @@ func (f *fakeInformer) RemoveEventHandler(toolscache.ResourceEventHandlerRegistr
 	return nil
 }
 func (f *fakeInformer) AddIndexers(toolscache.Indexers) error { return nil }
-func (f *fakeInformer) HasSynced() bool                        { return true }
-func (f *fakeInformer) IsStopped() bool                        { return f.stopped }
+func (f *fakeInformer) HasSynced() bool                       { return true }
+func (f *fakeInformer) IsStopped() bool                       { return f.stopped }
 
 func (f *fakeInformer) dispatch(ev store.Event) {
 	if f.stopped {
@@ -361,11 +361,11 @@ func (q *Queue) Len() int { return len(q.dirty) }
 func (q *Queue) Get() (reconcile.Request, bool) {
 	panic("sim queue: Get is driven by the scheduler")
 }
-func (q *Queue) Done(r reconcile.Request)       { delete(q.processing, r) }
-func (q *Queue) ShutDown()                      {}
-func (q *Queue) ShutDownWithDrain()             {}
-func (q *Queue) ShuttingDown() bool             { return false }
-func (q *Queue) Forget(r reconcile.Request)     { delete(q.failures, r) }
+func (q *Queue) Done(r reconcile.Request)            { delete(q.processing, r) }
+func (q *Queue) ShutDown()                           {}
+func (q *Queue) ShutDownWithDrain()                  {}
+func (q *Queue) ShuttingDown() bool                  { return false }
+func (q *Queue) Forget(r reconcile.Request)          { delete(q.failures, r) }
 func (q *Queue) NumRequeues(r reconcile.Request) int { return q.failures[r] }
 
 func (q *Queue) AddAfter(r reconcile.Request, d time.Duration) {
